@@ -26,6 +26,52 @@ pub fn real_truncate(path: &str, len: u64) {
     }
 }
 
+// ------------------------------------------------------------------ raw syscalls
+
+/// The real system call, without going through libc's `syscall` wrapper
+/// (which this file overrides below).
+#[inline]
+unsafe fn raw_syscall6(num: c_long, a1: c_long, a2: c_long, a3: c_long, a4: c_long, a5: c_long, a6: c_long) -> c_long {
+    let ret: c_long;
+    std::arch::asm!(
+        "syscall",
+        inlateout("rax") num => ret,
+        in("rdi") a1,
+        in("rsi") a2,
+        in("rdx") a3,
+        in("r10") a4,
+        in("r8") a5,
+        in("r9") a6,
+        lateout("rcx") _,
+        lateout("r11") _,
+        options(nostack)
+    );
+    ret
+}
+
+/// Override of libc's variadic `syscall(2)` wrapper: some crates (getrandom 0.2 /
+/// rand_core 0.6, used for ed25519 key generation) issue `SYS_getrandom` through it
+/// instead of calling `getrandom(3)`. Everything else passes straight through.
+#[no_mangle]
+pub unsafe extern "C" fn syscall(num: c_long, a1: c_long, a2: c_long, a3: c_long, a4: c_long, a5: c_long, a6: c_long) -> c_long {
+    if num == libc::SYS_getrandom {
+        let filled = with_ctx(|c| {
+            let mut g = c.lock();
+            let s = std::slice::from_raw_parts_mut(a1 as *mut u8, a2 as usize);
+            g.rand.fill(s);
+        });
+        if filled.is_some() {
+            return a2;
+        }
+    }
+    let r = raw_syscall6(num, a1, a2, a3, a4, a5, a6);
+    if (-4095..0).contains(&r) {
+        set_errno(-r as c_int);
+        return -1;
+    }
+    r
+}
+
 // ------------------------------------------------------------------ clock
 
 unsafe fn real_clock_gettime(clk: c_int, ts: *mut timespec) -> c_int {
